@@ -570,6 +570,15 @@ class sptensor:
         if i_0 == i_1:
             assert False, "Must contract along two different dimensions"
 
+        # Nothing stored: the contraction is zero
+        if self.nnz == 0:
+            if self.ndims == 2:
+                return 0.0
+            remshape = [
+                self.shape[n] for n in range(self.ndims) if n not in (i_0, i_1)
+            ]
+            return ttb.sptensor(shape=tuple(remshape))
+
         # Easy case - returns a scalar
         if self.ndims == 2:
             tfidx = self.subs[:, 0] == self.subs[:, 1]  # find diagonal entries
